@@ -213,6 +213,23 @@ impl<I: Interner> InferenceTable<I> {
     }
 }
 
+/// Verification hook (compiled only with `--cfg chalk_verif`): a read-only view of the three
+/// fields that `rollback_to` restores (`unify`, `vars`, `max_universe`).
+#[cfg(chalk_verif)]
+impl<I: Interner> InferenceTable<I> {
+    /// `(vars.len(), unify.len(), max_universe, universe of each variable if unbound)`.
+    pub fn verif_state(&mut self) -> (usize, usize, UniverseIndex, Vec<Option<UniverseIndex>>) {
+        let n = self.unify.len();
+        let universes = (0..n as u32)
+            .map(|i| match self.unify.probe_value(EnaVariable::from(InferenceVar::from(i))) {
+                InferenceValue::Unbound(ui) => Some(ui),
+                InferenceValue::Bound(_) => None,
+            })
+            .collect();
+        (self.vars.len(), n, self.max_universe, universes)
+    }
+}
+
 pub trait ParameterEnaVariableExt<I: Interner> {
     fn to_generic_arg(&self, interner: I) -> GenericArg<I>;
 }
